@@ -49,31 +49,36 @@ enum { M_SERIAL = 0, M_OPENMP, M_CUDA, M_HIP, M_OPENCL, M_METAL, M_DPCPP, M_COUN
 static const char *M_NAMES[M_COUNT] = {"serial", "openmp", "cuda", "hip", "opencl", "metal", "dpcpp"};
 
 // ---- throughput only -------------------------------------------------------------------------------------------------
-// Every tokenizer_t constructor calls getOperators(), which adds ~75 operators to a trie that re-freezes itself after every
-// add (quadratic); preprocessor_t::init() builds ~25 tokenizers (one per builtin macro) and runs in the parser constructor
-// and again in clear(): ~100 ms per input under ASan, all of it before the first input byte is read.  The executable
-// interposes getOperators(): the first call runs libocca's own function (dlsym RTLD_NEXT) into a cache, every call then
-// copies the cache (trie::operator= yields the same frozen trie).  The only caller passes a fresh, empty trie
-// (tokenizer_t::setup), so the result is identical.  Build with -DC16_NO_FASTOPS to switch this off.
-#ifndef C16_NO_FASTOPS
+// Every tokenizer_t constructor calls setup(), which adds ~75 operators to a trie that re-freezes itself after every add
+// (quadratic) and derives the operator start characters; preprocessor_t::init() builds ~20 tokenizers (one per builtin
+// macro) and runs in the parser constructor and again in clear(), twice for the launcher modes: ~100 ms per input under
+// ASan, all of it before the first input byte is read.  The executable interposes tokenizer_t::setup(): the first call
+// runs libocca's own function (dlsym RTLD_NEXT) and keeps the two members it computes (operators, operatorCharcodes) as a
+// prototype; later calls copy the prototype (trie::operator= yields the same frozen trie).  setup() is only called from
+// the constructors, on an empty trie, and reads no other state, so the result is identical.  -DC16_NO_FASTSETUP = off.
+#ifndef C16_NO_FASTSETUP
 namespace occa {
   namespace lang {
-    void getOperators(operatorTrie &operators) {
-      typedef void (*fn_t)(operatorTrie&);
-      static operatorTrie *cache = NULL;
-      if (!cache) {
-        fn_t real = (fn_t) dlsym(RTLD_NEXT, "_ZN4occa4lang12getOperatorsERNS_4trieIPKNS0_10operator_tEEE");
-        if (!real) { fprintf(stderr, "C16: occa::lang::getOperators not found in libocca (signature changed?)\n"); _exit(3); }
-        cache = new operatorTrie();
-        real(*cache);
-        cache->freeze();
+    void tokenizer_t::setup() {
+      typedef void (*fn_t)(tokenizer_t*);
+      static fn_t real = NULL;
+      static operatorTrie *protoOps = NULL;
+      static std::string *protoCodes = NULL;
+      if (!real) {
+        real = (fn_t) dlsym(RTLD_NEXT, "_ZN4occa4lang11tokenizer_t5setupEv");
+        if (!real) { fprintf(stderr, "C16: occa::lang::tokenizer_t::setup() not found in libocca\n"); _exit(3); }
       }
-      if (!operators.isEmpty()) {      // not the call this shortcut was written for: do what libocca does
-        fn_t real = (fn_t) dlsym(RTLD_NEXT, "_ZN4occa4lang12getOperatorsERNS_4trieIPKNS0_10operator_tEEE");
-        real(operators);
+      if (!protoOps || !operators.isEmpty()) {
+        real(this);
+        if (!protoOps) {
+          protoOps = new operatorTrie();
+          *protoOps = operators;
+          protoCodes = new std::string(operatorCharcodes);
+        }
         return;
       }
-      operators = *cache;
+      operators = *protoOps;
+      operatorCharcodes = *protoCodes;
     }
   }
 }
@@ -147,7 +152,8 @@ static void dumpStats() {
   fclose(f);
 }
 
-static void sink(const char *) { ++g_diagChunks; }
+static bool g_echo = false;      // VERIF_C16_ECHO=1: show the diagnostics (triage aid)
+static void sink(const char *s) { ++g_diagChunks; if (g_echo) fputs(s, stderr); }
 
 // true when an #include of the text could name a file outside the current directory
 static bool includeLeavesSandbox(const char *s, size_t n) {
@@ -208,6 +214,7 @@ static void parseExact(parser_t &p, const char *buf) {
 extern "C" int LLVMFuzzerInitialize(int *, char ***) {
   occa::io::stderr.setOverride(sink);
   occa::io::stdout.setOverride(sink);
+  g_echo = getenv("VERIF_C16_ECHO") != NULL;
   const char *dir = getenv("VERIF_C16_DIR");
   if (dir && *dir && chdir(dir) != 0) { fprintf(stderr, "C16: cannot chdir to %s\n", dir); _exit(3); }
   snprintf(g_file, sizeof(g_file), "c16_%ld.okl", (long) getpid());
